@@ -8,7 +8,9 @@ EXTENDS Naturals, FiniteSets, Sequences, TLC
 
 CONSTANTS Actors, Vs, MaxSeq, QLen, Chunk, MaxInflight, SeenMax, Keep,
           FixS3,        \* FALSE: drop-oldest evicts the cache entry keyed by the INCOMING changeset's actor (code as found)
-          ApplyMayFail, \* TRUE: a batch may end without booking anything (apply error, table unknown to the node): known finding S15
+          ApplyMayFail, \* TRUE: a batch may end without booking anything (apply error, table unknown to the node)
+          FixS15,       \* TRUE: when a batch is joined, the changesets it did not book are forgotten by the cache (repair of S15);
+                        \* FALSE: the loop only logs such a batch (code as found)
           FixEmptySeen  \* FALSE: an empty changeset is suppressed whenever any chunk of its version is cached (code as found)
 
 VARIABLES queue,     \* Seq of changesets
@@ -126,16 +128,38 @@ Done(i) ==
     /\ inflight' = [j \in 1..(Len(inflight) - 1) |-> IF j < i THEN inflight[j] ELSE inflight[j + 1]]
     /\ UNCHANGED <<queue, bufCost, seen, known, part>>
 
-(* process_multiple_changes ends without booking the batch (error, or changes it cannot apply): the loop only logs it, *)
-(* the cache entries of the batch stay                                                                              *)
+(* process_multiple_changes ends without booking the batch (error, or changes it cannot apply).  Code as found: the  *)
+(* loop only logs it and the cache entries of the batch stay (S15).  Repaired: the joined batch carries its          *)
+(* changesets and the loop forgets every one the bookkeeping does not contain.                                       *)
+RECURSIVE ForgetAll(_, _)
+ForgetAll(sn, b) == IF b = <<>> THEN sn ELSE ForgetAll(Evict(sn, Head(b).a, Head(b)), Tail(b))
+NotHeldOf(b) == SelectSeq(b, LAMBDA c : ~Held(c))
 Fail(i) ==
     /\ ApplyMayFail /\ ~SpawnEnabled
     /\ i \in 1..Len(inflight) /\ ~AllHeld(inflight[i])
     /\ inflight' = [j \in 1..(Len(inflight) - 1) |-> IF j < i THEN inflight[j] ELSE inflight[j + 1]]
-    /\ UNCHANGED <<queue, bufCost, seen, known, part>>
+    /\ seen' = IF FixS15 THEN ForgetAll(seen, NotHeldOf(inflight[i])) ELSE seen
+    /\ UNCHANGED <<queue, bufCost, known, part>>
+(* the bookkeeping is read per changeset after the join; a changeset that another in-flight batch books in that very   *)
+(* window is forgotten although it is held by the time the loop goes on (harmless: it can only be enqueued once more)   *)
+OtherTouches(i, c) == \E k \in 1..Len(inflight) : k # i /\ \E j \in 1..Len(inflight[k]) : inflight[k][j].a = c.a /\ inflight[k][j].v = c.v
+DoneLate(i, F) ==
+    /\ FixS15 /\ ~SpawnEnabled
+    /\ i \in 1..Len(inflight)
+    /\ F # <<>>
+    /\ (ApplyMayFail \/ AllHeld(inflight[i]))
+    /\ \A k \in 1..Len(F) : (\E j \in 1..Len(inflight[i]) : inflight[i][j] = F[k]) /\ (Held(F[k]) => OtherTouches(i, F[k]))
+    /\ \A j \in 1..Len(inflight[i]) : ~Held(inflight[i][j]) => \E k \in 1..Len(F) : F[k] = inflight[i][j]
+    /\ inflight' = [j \in 1..(Len(inflight) - 1) |-> IF j < i THEN inflight[j] ELSE inflight[j + 1]]
+    /\ seen' = ForgetAll(seen, F)
+    /\ UNCHANGED <<queue, bufCost, known, part>>
 
 Next == \/ \E c \in Changes : Recv(c) \/ RecvLate(c)
         \/ \E i \in 1..MaxInflight : Fail(i)
+        \* (explored together with failing batches only: on its own it multiplies the states of the base instance)
+        \/ /\ ApplyMayFail
+           /\ \E i \in 1..Len(inflight) : \E S \in SUBSET {inflight[i][j] : j \in 1..Len(inflight[i])} :
+               DoneLate(i, SelectSeq(inflight[i], LAMBDA c : c \in S))
         \/ Spawn \/ Tick
         \/ \E i \in 1..MaxInflight : Commit(i) \/ Done(i)
 Spec == Init /\ [][Next]_vars
